@@ -49,6 +49,14 @@ CLAIMED = {
    "Structural necessary conditions of structurally lossless Markdown: a forward dataflow over each of the table writers tracks which of '|' and newline have been escaped on every cell text (meet over phis) and requires both at every sink (builder write or concatenation), helper escapers are checked for both characters; each strings.Repeat(\"#\", n) in the docx/odt/rag writers has n proven within 1..6 at the call by edge facts through the clamp phis, with the MaxHeadingLevel and 6 clamps applied after the offset; DOCX/ODT column counts are accumulated over all rows.",
    "Trusted: go/ssa; helper escapers are recognised by the constants they handle; what a GFM parser reads back for merged cells and list nesting are not decided.",
    "forward escape-state dataflow + interval facts through phi/edge conditions", "DESIGN.md §4 C15"),
+ "C19": ("other",
+   "Structural necessary conditions: the exclusion decision's complete decision table (4 modes x 8 outcomes of the three opaque sub-predicates) is computed by interpreting the control-flow graph of shouldExclude with the predicates as free booleans and checked to be constantly false for None and monotone in the mode order; the mode field is read nowhere else; the per-mode cache is keyed and filled by the requested mode; script/style are skipped and no content element is; an emitted list slice is never reused as accumulator storage; the filtered and unfiltered traversals agree case by case (sibling cross-check) apart from the exclusion test.",
+   "Trusted: go/ssa; the three sub-predicates are treated as opaque but mode-independent (R19.2 establishes that the mode is read only in the decision function); completeness of extraction and entity decoding are not decided.",
+   "finite decision-table enumeration over the CFG + who-may-read + sibling cross-check of case signatures", "DESIGN.md §4 C19"),
+ "C20": ("other",
+   "Structural necessary conditions of admission by content: the extension/format/reader tables are mutually consistent and exhaustive over the format constants (Detect o Extension = id), every reader Open is dominated by the success edge of validateFormat, validateFormat succeeds only on the unknown-or-equal edges, the EPUB DRM check dominates every content-reading call, checkForDRM refuses on rights.xml / unparsable / covering encryption metadata and can say 'no DRM' only on the loop-exhausted edge of a scan over the complete member list, and ZIP sniffing scans the complete list in the order mimetype, container.xml, prefixes.",
+   "Trusted: go/types constant evaluation, go/ssa dominance; behaviour on concrete member permutations, URI casing and what counts as a content document are not decided.",
+   "constant-table composition + guard dominance + loop-exhaustion edge facts", "DESIGN.md §4 C20"),
 }
 
 NOT_BUILT = "rules for this property are not built yet in this revision of /verif (see DESIGN.md §4 for the plan)"
